@@ -5,6 +5,7 @@ CONSTANTS
   MaxBasis = 1
   MaxTone = 1
   MaxArrN = 1
+  Phases <- Q_Phases
   Wrong = TRUE
 INVARIANT InvRealPart
 CHECK_DEADLOCK FALSE
